@@ -55,14 +55,15 @@ def cases(draw, nums=("frac",), ops=None, alike=False):
     PB = draw(gen.ctrlpoints(nB, dimB, positive_values() if op == "div" else None))
     A = {"U": U, "p": p, "P": PA, "w": draw(gen.pos_weights(nA)) if ratA else None, "num": num}
     B = {"U": V, "p": q, "P": PB, "w": draw(gen.pos_weights(nB)) if ratB else None, "num": num}
-    s = draw(st.sampled_from([F(0), F(1), F(-1), F(2), F(-3, 2), F(5, 7), F(1, 3)]))
+    s = draw(st.sampled_from([F(0), F(1), F(-1), F(2), F(-3, 2), F(5, 7), F(1, 3), F(3), F(-7), F(12)]))
     if op in ("divs",) and s == 0:
         s = F(3)
     M = draw(st.lists(st.lists(gen.small_fracs(-3, 3, (1, 2)), min_size=2, max_size=2), min_size=2, max_size=2))
     return {"op": op, "A": A, "B": B, "s": s, "M": M, "Mvec": draw(st.booleans()),
             "twin_first": draw(st.integers(0, 2)) == 0,
             "other_interval": draw(st.integers(0, 9)) == 0,
-            "history": draw(st.sampled_from(lib.HISTORY_MODES))}
+            "history": draw(st.sampled_from(lib.HISTORY_MODES)),
+            "sform": draw(st.sampled_from(["frac", "int", "npint"]))}
 
 
 # ---- tuple arithmetic on reference values
@@ -109,6 +110,10 @@ def check(case, out):
             out.exclude("setter-history-did-not-reach-the-state (C15 territory)")
             return
     s = lib.conv_val(case["s"], num)
+    if exact and F(case["s"]).denominator == 1 and case.get("sform", "frac") != "frac":
+        # an integral scalar as a plain int / numpy integer: exact data must stay exact
+        s = int(case["s"]) if case["sform"] == "int" else np.int64(int(case["s"]))
+        out.cls("scalar-as-" + case["sform"])
     fs = oracle.frac(s)
     Mf = [[oracle.frac(lib.conv_val(x, num)) for x in row] for row in case["M"]]
     if exact:
